@@ -90,7 +90,7 @@ class Ctx:
         os.makedirs(EVIDENCE_DIR, exist_ok=True)
         os.makedirs(REPLAY_DIR, exist_ok=True)
         for g in require_guards:
-            if not self.guards.get(g):
+            if not self.guards.get(g) and not self.violations:
                 raise HarnessError("vacuity guard %r is zero: the exploration never reached the situation "
                                    "the property is about" % g)
         new, known_hit = [], {}
